@@ -314,3 +314,19 @@ Proof.
     + split; [discriminate|]. intros H; inversion H; subst.
       rewrite (Byte.byte_dec_lb eq_refl) in E. discriminate.
 Qed.
+
+(* ---------- minimal big-endian serialisation (BigUint::to_bytes_be, BN_bn2bin) ---------- *)
+Fixpoint strip0 (l : bytes) : bytes :=
+  match l with
+  | b :: r => if N.eqb (b2n b) 0 then strip0 r else l
+  | [] => []
+  end.
+
+(* BigUint::to_bytes_be: no leading zero bytes; zero is the single byte 00.
+   Every integer this library serialises that way is below 2^4160 (RSA-4096 values), so stripping the
+   520-byte fixed-width form is the minimal form. *)
+Definition be_minimal (n : N) : bytes :=
+  match strip0 (be_bytes 520 n) with
+  | [] => [n2b 0]
+  | l => l
+  end.
